@@ -230,4 +230,55 @@ def check(ctx: Ctx, col: Collector, tier: str) -> None:
                     key = f"{CLI}::_get_args::{cname}"
                     (col.ok if not probs else col.bad)("C14.ENUM-PARSE", key, repo.loc(CLI, n), f"{names}: type/choices/default consistent" if not probs else "; ".join(probs),
                                                        *([] if not probs else [f"option {names}: {probs[0]}"]))
+    # ------------------------------------------------------------------ TYPE-EQ: the equality that decides "different types"
+    from ..core.ctx import DOCPARSER, TYPES_MOD
+    import re as _re
+    col.spec("C14.TYPE-EQ", "'different types' is decided field by field: no comparison mixes two fields (e.g. key and value of a dict type)",
+             "path analysis of every explicit __eq__ of the type classes", floor=8)
+    col.spec("C14.RESULT-ALIGN", "docstring result types are paired with code results by position: one docstring entry per documented result, in order",
+             "shape of the result-docstring list built by get_result_documentation", floor=1)
+    tm = repo.module(TYPES_MOD)
+    for k in ctx.sds_type_classes:
+        eq = tm.classes[k].methods.get("__eq__")
+        if eq is None:
+            continue
+        col.touched(eq)
+        params = eq.params()
+        outs = ctx.interp(eq).run_function(eq, {"self": Sym("self", f"sds.{k}"), params[1]: Sym("other")})
+        mixed = []
+        for o in outs:
+            if o.kind == "return" and o.value == Const(True):
+                for fk, fv in o.facts:
+                    if "==" in fk and fv:
+                        sf = set(_re.findall(r"<self\.(\w+)", fk))
+                        of = set(_re.findall(r"<other\.(\w+)", fk))
+                        if sf and of and (sf != of or len(sf) > 1):
+                            mixed.append(fk)
+        key = f"{TYPES_MOD}::{k}.__eq__::fieldwise"
+        if mixed:
+            col.bad("C14.TYPE-EQ", key, repo.loc(TYPES_MOD, eq.node), f"{mixed[:2]}",
+                    f"{k}.__eq__ compares several fields in one unordered comparison ({mixed[0][:100]}): types that differ only by which "
+                    f"field holds which component compare equal, so no discrepancy warning is logged for them")
+        else:
+            col.ok("C14.TYPE-EQ", key, repo.loc(TYPES_MOD, eq.node), "each comparison relates one field of self with the same field of other")
+    rfi = repo.function(DOCPARSER, "DocstringParser.get_result_documentation")
+    col.touched(rfi)
+    probs = []
+    for n in ast.walk(rfi.node):
+        if isinstance(n, (ast.ListComp, ast.GeneratorExp)) and any(g.ifs for g in n.generators) and "ResultDocstring" in ast.unparse(n.elt):
+            probs.append(f"line {n.lineno}: result docstrings are filtered ({ast.unparse(n.generators[0].ifs[0])[:60]})")
+        if isinstance(n, ast.Call) and isinstance(n.func, ast.Attribute) and n.func.attr in ("remove", "pop", "sort", "reverse", "insert") \
+                and "result" in ast.unparse(n.func.value):
+            probs.append(f"line {n.lineno}: the result docstring list is modified by .{n.func.attr}()")
+        if isinstance(n, ast.Call) and getattr(n.func, "id", "") in ("filter", "sorted", "reversed") and "result" in ast.unparse(n):
+            probs.append(f"line {n.lineno}: the result docstring list passes {n.func.id}()")
+    outs = ctx.interp(rfi).run_function(rfi, {"self": Sym("self"), "function_qname": Sym("function_qname")})
+    lists = [o.value for o in outs if o.kind == "return" and isinstance(o.value, ListV) and o.value.items]
+    if not lists or not all(all(isinstance(i, Obj) and i.cls == "ResultDocstring" for i in l.items) for l in lists):
+        probs.append("a returned list does not consist of ResultDocstring(...) entries")
+    key = f"{DOCPARSER}::DocstringParser.get_result_documentation::one-entry-per-result"
+    if probs:
+        col.bad("C14.RESULT-ALIGN", key, repo.loc(DOCPARSER, rfi.node), "; ".join(probs), f"{probs[0]}: later docstring types shift to the wrong result under the DOCSTRING preference")
+    else:
+        col.ok("C14.RESULT-ALIGN", key, repo.loc(DOCPARSER, rfi.node), f"{len(lists)} list-returning paths: one ResultDocstring per documented result, unfiltered, in order")
     col.assume("code_type != doc_type relies on the equality of C19")
